@@ -1007,10 +1007,12 @@ func (s *Store[K, V]) processSecondary() {
 		case item = <-s.secondaryCacheBuf:
 		}
 		tk := item.shard.mu.RLock()
-		// first double check key still exists in map,
-		// not exist means key already deleted by Delete API
-		_, exist := item.shard.get(item.entry.key)
-		if exist {
+		// first double check the entry is still the one in the map:
+		// not exist means key already deleted by Delete API, and a different
+		// entry means the key was deleted and stored again meanwhile, so the
+		// value handed over here is a deleted one and must not be written back
+		current, exist := item.shard.get(item.entry.key)
+		if exist && current == item.entry {
 			err := s.secondaryCache.Set(
 				item.entry.key, item.entry.value,
 				item.entry.weight.Load(), item.entry.expire.Load(),
